@@ -179,6 +179,7 @@ func (w *Wire) SentRecords() [][]byte {
 type SConn struct {
 	In, Out *Wire
 	name    string
+	Peer    string // remote address string (the client's session cache key)
 	once    sync.Once
 }
 
@@ -201,8 +202,13 @@ func (c *SConn) Close() error {
 	})
 	return nil
 }
-func (c *SConn) LocalAddr() net.Addr                { return sAddr(c.name) }
-func (c *SConn) RemoteAddr() net.Addr               { return sAddr("peer-of-" + c.name) }
+func (c *SConn) LocalAddr() net.Addr { return sAddr(c.name) }
+func (c *SConn) RemoteAddr() net.Addr {
+	if c.Peer != "" {
+		return sAddr(c.Peer)
+	}
+	return sAddr("peer-of-" + c.name)
+}
 func (c *SConn) SetDeadline(t time.Time) error      { return nil }
 func (c *SConn) SetReadDeadline(t time.Time) error  { return nil }
 func (c *SConn) SetWriteDeadline(t time.Time) error { return nil }
